@@ -130,7 +130,7 @@ def generate(gen_dir, repo):
         attempt("src_pose3d_mul (%s)" % POSE_SRC, lambda: unit_pose(loaded, gen_dir, ix, summary, lines))
     else:
         lines.append("(* src_pose3d_mul: NOT TRANSLATED — needs src_smart_ctor *)\n")
-    text = eigensym.HEAD % (ME, "From Romea.gen Require Import SrcFunsC10.") + "\n".join(lines) + "\nEnd Src.\n"
+    text = eigensym.HEAD % (ME, "From Romea.gen Require Import SrcFunsC10.") + "\n".join(lines) + "\n"
     return text, errors
 
 
